@@ -236,7 +236,7 @@ func c10Profiles(tier Tier) []*explore.Profile {
 			return acts
 		},
 	}
-	return []*explore.Profile{t, shapes, other, wideTransfersProfile(tier, mk()), highNonceProfile("high-nonce", tier, mk(), 2), highNonceProfileAt("high-nonce-256", tier, mk(), 2, 256)}
+	return []*explore.Profile{t, shapes, other, threeShardProfile(tier, mk()), wideTransfersProfile(tier, mk()), highNonceProfile("high-nonce", tier, mk(), 2), highNonceProfileAt("high-nonce-256", tier, mk(), 2, 256)}
 }
 
 func init() { LedgerProfiles["C10"] = c10Profiles }
